@@ -37,7 +37,7 @@ def gen_big_files(rng) -> dict:
     total = rng.randint(600, 3000)
     cuts = sorted(rng.sample(range(1, total), nfiles - 1)) if nfiles > 1 else []
     counts = [b - a for a, b in zip([0] + cuts, cuts + [total])]
-    return {"nbits": nbits, "nchans": nchans, "nsamps": counts, "pad": [rng.randint(0, 9) for _ in counts],
+    return {"nbits": nbits, "nchans": nchans, "nsamps": counts, "pad": filgen.gen_pads(rng, len(counts)),
             "vseed": rng.randrange(1 << 16), "mode": "bits", "big": True}
 
 
@@ -51,7 +51,7 @@ def gen_files(rng, max_total=64, allow_multi=True) -> dict:
         counts.append(rng.choice([1, 1, 2, 3, rng.randint(1, max(1, max_total // nfiles))]))
     return {
         "nbits": nbits, "nchans": nchans, "nsamps": counts,
-        "pad": [rng.randint(0, 9) for _ in counts], "vseed": rng.randrange(1 << 16), "mode": "bits",
+        "pad": filgen.gen_pads(rng, len(counts)), "vseed": rng.randrange(1 << 16), "mode": "bits",
     }
 
 
